@@ -320,9 +320,26 @@ class SimCluster:
         self.logs[self.current_rank()].append(ev)
 
     # ---- replacements of module-level names --------------------------------------
-    def get_device_mesh(self, device_type: str, mesh, mesh_dim_names=None) -> SimDeviceMesh:
+    def get_device_mesh(self, *args, **kwargs) -> SimDeviceMesh:
+        """Stand-in for shampoo_dist_utils.get_device_mesh that keeps the REAL function's caching behaviour: the real one is
+        wrapped in functools.cache, whose key distinguishes positional from keyword calls (and which may be removed by a
+        change to /repo); the stand-in binds the arguments with the real signature and caches per rank with exactly that key,
+        or not at all if the real function is not cached."""
+        import functools
+        import inspect
         r = self.current_rank()
-        key = (device_type, mesh, mesh_dim_names)
+        try:
+            real = importlib.import_module("distributed_shampoo.utils.shampoo_dist_utils").get_device_mesh
+            ba = inspect.signature(getattr(real, "__wrapped__", real)).bind(*args, **kwargs)
+            ba.apply_defaults()
+            device_type, mesh, mesh_dim_names = ba.arguments["device_type"], ba.arguments["mesh"], ba.arguments.get("mesh_dim_names")
+            cached = hasattr(real, "cache_info")
+        except (ImportError, AttributeError, KeyError):
+            real, cached = None, True
+            device_type, mesh, mesh_dim_names = (list(args) + [kwargs.get("device_type"), kwargs.get("mesh"), kwargs.get("mesh_dim_names")])[:3]
+        if not cached:
+            return SimDeviceMesh(self, device_type, mesh, mesh_dim_names)
+        key = functools._make_key(args, kwargs, False)
         cache = self._mesh_cache[r]
         if key not in cache:
             cache[key] = SimDeviceMesh(self, device_type, mesh, mesh_dim_names)
